@@ -427,6 +427,18 @@ def check_count_guard(cls, k, bs, be):
     return 0 <= v <= 65536 and size == len(bs)
 
 
+def check_count_accept(cls, k, n, be):
+    """C02 at the array counter: every element count n <= 65536 - shift that the counter type can hold is written by the
+    real counter field (container_len._encode) and read back as n by container_len._decode, consuming exactly the counter.
+    (The value checks carry arrays of <= 2 elements; this is the same round trip for the counter alone, n symbolic.)"""
+    sizers = [d.type for d in cls._descriptor if d.type.__name__ == 'container_len']
+    t = sizers[k]
+    e = '>' if be else '<'
+    data = t._encode(n, e)
+    v, size = t._decode(data, 0, e)
+    return v == n and size == len(data)
+
+
 def check_decode_total(cls, t, bs, be, twin=False, greedy=False):
     """C06: decode of arbitrary bytes returns or raises ProphyError; accepted input -> encodes, and is a fixpoint;
     element counts bounded by the input length"""
@@ -504,6 +516,12 @@ def explain_codec(cls, t, profiles, fn, args):
     chk = parts[0]
     sig = dict(check=chk)
     try:
+        if chk == 'cnt':
+            try:
+                ok = check_count_accept(cls, int(parts[1]), args[0], args[1])
+            except Exception as ex:
+                return dict(sig, kind='count-roundtrip-raises', exc=type(ex).__name__, site=_innermost_repo_frame(ex.__traceback__))
+            return dict(sig, kind='count-roundtrip-differs' if not ok else 'passes?')
         if chk == 'dec':
             be = args[-1]
             bs = list(args[:-1])
